@@ -29,6 +29,17 @@ def main():
     with open('/root/.vp/BASELINE.json') as f:
         stable = set(json.load(f)['stable_pass'])
     missing = sorted(stable - passed)
+    if 0 < len(missing) <= 3:
+        # load-sensitive tests (timing assertions) are run again on their own before they count as not passing
+        for m in list(missing):
+            cls, _, name = m.rpartition('::')
+            mod, _, klass = cls.rpartition('.')
+            node = '%s.py::%s::%s' % (mod.replace('.', '/'), klass, name)
+            r2 = subprocess.run(['/venv/bin/python', '-m', 'pytest', '-q', '-p', 'no:cacheprovider', '--timeout=900', node], cwd=repo, env=env, capture_output=True, text=True)
+            if r2.returncode == 0:
+                missing.remove(m)
+                passed.add(m)
+                print('  (passed when run again on its own: %s)' % m, file=sys.stderr)
     print('passed=%d stable=%d missing=%d' % (len(passed), len(stable), len(missing)))
     for m in missing[:30]:
         print('  NOT PASSING:', m)
